@@ -79,6 +79,9 @@ def lab_spec(draw, name, *, kind=None, max_rows=8, max_cols=6, regime="roomy", g
         # deep-well plates and reservoirs: limits of the order of the volumes again, but three orders of magnitude up
         vmax = draw(num(2000, 60000))
         vmin = 0.0 if (min_zero or (min_zero is None and draw(st.booleans()))) else draw(num(max(q, 0.01), 500))
+        if vmin > 250:
+            # dead volumes of a millilitre and more: a relative tolerance on the limit becomes visible in two decimals
+            vmin = min(float(int(vmin * 4)), float(int(vmax / 2)))
         hi_init = vmax
     else:
         vmax = draw(num(20, 400))
